@@ -31,7 +31,9 @@ fn state(a: &Airplanes, k: adsb_deku::ICAO, s: &AirplaneState) -> String {
 pub fn dump(a: &Airplanes) -> String {
     let recs: Vec<String> = a.iter().map(|(k, s)| state(a, *k, s)).collect();
     let allpos: Vec<String> = a.all_position().iter().map(|(k, _)| k.to_string()).collect();
-    format!("MAP n={} allpos={} | {}", a.len(), allpos.join(","), recs.join(" | "))
+    // `Display for Airplanes`: one line per aircraft that has details, `<address>: AirplaneDetails {..}`; the addresses in print order
+    let shown: Vec<String> = a.to_string().lines().map(|l| l.split(':').next().unwrap_or("").to_string()).collect();
+    format!("MAP n={} allpos={} shown={} | {}", a.len(), allpos.join(","), shown.join(","), recs.join(" | "))
 }
 
 pub fn op(st: &mut State, args: &[&str]) -> String {
